@@ -83,13 +83,22 @@ Inductive case :=
    [sem] = net/netip meaning (zone dropped, unmapped) of the host and of every listed element;
    [ref_admit] = the harness's own netip decision; [redirect] = the route's redirect option
    (0 = the route forwards; 301/302/307/308: the target comes out of the real Table.Lookup as a
-   per-request copy); observables: status, upstream hits, whether a Location header was set *)
-| CHttp (e : env) (present : bool) (redirect : N) (auth : str) (schemes : list (str * bool))
+   per-request copy); [via] = how an upstream contact is observed: 0 = round trips of the proxy's
+   Transport (plain GET, 2 = Accept: text/event-stream), 1 = Upgrade: websocket, connections a
+   loopback listener behind the target accepted (the raw dial path; status not compared when the
+   dial happened); observables: status, upstream hits, whether a Location header was set *)
+| CHttp (e : env) (present : bool) (via : N) (redirect : N) (auth : str) (schemes : list (str * bool))
         (remote : str) (split : option str) (xff : list str)
         (sem : list (str * option (bool * N))) (ref_admit : bool) (status hits : N) (has_location : bool)
 (* the real tcp.Proxy (0) / tcp.SNIProxy (1) / tcp.DynamicProxy (2) ServeTCP on a scripted
    connection: number of connections the upstream listener saw *)
-| CTcp (e : env) (present : bool) (proxy : N) (peer : tcp_peer) (ref_admit : bool) (dials : N).
+| CTcp (e : env) (present : bool) (proxy : N) (peer : tcp_peer) (ref_admit : bool) (dials : N)
+(* the real gRPC proxy (grpc_proxy.TransparentHandler(GetGRPCDirector) + GrpcProxyInterceptor.Stream
+   behind ListenAndServeGRPC) in front of a real gRPC backend, the route coming out of the real
+   addTarget with opts proto=grpc + allow/deny/auth: [peer] = the caller's address as the proxy's
+   listener sees it, [reached] = calls the backend served, [ok] = the caller got status OK *)
+| CGrpc (e : env) (auth : str) (schemes : list (str * bool)) (peer : ipaddr) (ref_admit : bool)
+        (reached : N) (ok : bool).
 
 Definition check_case (c : case) : N :=
   match c with
@@ -99,14 +108,14 @@ Definition check_case (c : case) : N :=
                   && forallb (fun p => Bool.eqb (deny_by_ip mr (Some (fst (fst p)))) (snd (fst p))) probes in
       let sane := rule_queries_ok e && ref_matches e
                   && forallb (fun p => Bool.eqb (ref_admits (e_ref e) (canon (fst (fst p)))) (snd p)) probes in
-      (* not denied by the implementation -> admitted by the reference reading; and after a
-         rule error (unusable item, or both options) every address is denied (1cbe751) *)
-      let spec := forallb (fun p => snd (fst p) || snd p) probes
-                  && (mok || forallb (fun p => snd (fst p)) probes) in
+      (* the property: not denied by the implementation -> admitted by the reference reading of
+         the parsable items ("never widens").  That a rule error installs exactly deny-all is the
+         code's choice: it is part of [same] (the model predicts it), not of the spec. *)
+      let spec := forallb (fun p => snd (fst p) || snd p) probes in
       if negb sane then v_disagree else
       (* no known-finding region is left (F-C12-1 fixed by 1cbe751) *)
       verdict same spec None (negb (rules_empty mr) || negb mok)
-  | CHttp e present redirect auth schemes remote split xff sem ref_admit status hits has_location =>
+  | CHttp e present via redirect auth schemes remote split xff sem ref_admit status hits has_location =>
       let '(mr, mok) := m_rules e in
       let pip := oracle (e_ip e) in
       let sh := fun s => if beq s remote then split else None in
@@ -119,8 +128,10 @@ Definition check_case (c : case) : N :=
                    | [EUpstream] => (200, 1, false)
                    | _ => (0, 99, false)
                    end in
-      let same := (fst (fst m_obs) =? status) && (snd (fst m_obs) =? hits)
-                  && Bool.eqb (snd m_obs) has_location in
+      (* websocket: after the dial the answer goes over the hijacked connection, not the recorder *)
+      let ws_dialled := (via =? 1) && (snd (fst m_obs) =? 1) in
+      let same := (ws_dialled || (fst (fst m_obs) =? status)) && (snd (fst m_obs) =? hits)
+                  && Bool.eqb (snd m_obs) has_location && (via <? 3) in
       (* every address string the request carries: the peer and every element of every field value *)
       let strs := match split with
                   | None => []
@@ -138,24 +149,27 @@ Definition check_case (c : case) : N :=
          "1.2.3.4%eth0", which the code reads as 1.2.3.4 and netip rejects) only the safe
          direction is demanded, so that a fail-closed reading does not alarm. *)
       let strict := mok && forallb (fun s => is_some (pipz s) && is_some (oracle sem s)) strs in
-      (* the answer of a request that passed both gates: the upstream's 200 after one round
-         trip, or for a redirect route the 3xx with a Location and no upstream contact *)
-      let passed := if redirect =? 0 then (hits =? 1) && (status =? 200)
-                    else (hits =? 0) && (status =? redirect) && has_location in
-      let refused := (hits =? 0) && negb has_location in
-      let spec := if negb present then (hits =? 0) && (status =? 404) else
+      (* THE PROPERTY, on the implementation's observables and the netip reference:
+           upstream contacted or redirect answered  =>  admitted and authorised;
+           not admitted                            =>  403 (or 401 when the scheme rejects too), no upstream;
+           admitted, not authorised                =>  401, no upstream.
+         Everything beyond it (exact status order, 200 after exactly one round trip, that an
+         admitted and authorised request IS forwarded, deny-all after a rule error) is the
+         model's prediction and is compared in [same]: a deviation there is reported as a broken
+         correspondence, not as a failing input of the property. *)
+      let contacted := negb (hits =? 0) in
+      let redirected := negb (redirect =? 0) && (status =? redirect) && has_location in
+      let spec := if negb present then hits =? 0 else
                   match split with
-                  | None => (hits =? 0) &&
-                            (* no peer address: refused, or (redirect route) answered by fabio itself *)
-                            ((redirect =? 0) || negb (status =? redirect) || passed)
-                  | Some host =>
-                      (* a rule error denies every peer whose address the code can read (1cbe751) *)
-                      if negb mok && is_some (pipz host) then refused && (status =? 403) else
-                      if passed then admitted_ref && auth_ref
-                      else refused &&
-                        (if negb admitted_ref then status =? 403
-                         else if negb auth_ref then (status =? 401) || (negb strict && (status =? 403))
-                         else negb strict && (status =? 403))
+                  | None =>
+                      (* no peer address to check; nothing is forwarded (addHeaders answers 500); a
+                         redirect route may answer, but only to accepted credentials *)
+                      (hits =? 0) && (negb redirected || auth_ref)
+                  | Some _ =>
+                      if contacted || redirected then admitted_ref && auth_ref
+                      else if negb admitted_ref then (status =? 403) || (negb auth_ref && (status =? 401))
+                      else if negb auth_ref then (status =? 401) || (negb strict && (status =? 403))
+                      else true
                   end in
       let sane := rule_queries_ok e && ref_matches e && Bool.eqb admitted_ref ref_admit
                   && forallb (fun s => covered (e_ip e) (strip_zone s)) strs && forallb (covered sem) strs
@@ -182,13 +196,28 @@ Definition check_case (c : case) : N :=
                  | TCPAddr (Some ip) => ref_admits (e_ref e) (canon ip)
                  | _ => true
                  end in
-      (* after a rule error every peer with an address is refused (1cbe751) *)
+      (* the property: a dial only for an admitted peer (deny-all after a rule error and "an
+         admitted peer IS dialled" are the model's predictions, compared in [same]) *)
       let spec := if negb present then dials =? 0 else
                   match peer with
-                  | TCPAddr (Some _) => if negb mok then dials =? 0 else if adm then dials =? 1 else dials =? 0
+                  | TCPAddr (Some _) => if adm then dials <=? 1 else dials =? 0
                   | _ => dials <=? 1
                   end in
       let sane := rule_queries_ok e && ref_matches e && Bool.eqb adm ref_admit && (proxy <? 3) in
       if negb sane then v_disagree else
       verdict same spec None (present && (negb (rules_empty mr) || negb mok))
+    | CGrpc e auth schemes peer ref_admit reached ok =>
+      let '(mr, mok) := m_rules e in
+      let ev := serve_grpc (Some {| t_rules := mr; t_auth := auth; t_redirect := 0 |}) in
+      let same := (count_upstream ev =? reached) && Bool.eqb ok (reached =? 1) in
+      let adm := ref_admits (e_ref e) (canon peer) in
+      let auth_ref := if is_nil auth then true else
+                      match lookup schemes auth with Some b => b | None => false end in
+      let spec := if reached =? 0 then true else adm && auth_ref in
+      let sane := rule_queries_ok e && ref_matches e && Bool.eqb adm ref_admit in
+      (* region 4 (F-C12-4, open), syntactic: a gRPC route that carries an access or auth option *)
+      let region := if negb (is_nil (e_allow e)) || negb (is_nil (e_deny e)) || negb (is_nil auth)
+                    then Some 4 else None in
+      if negb sane then v_disagree else
+      verdict same spec region (negb (rules_empty mr) || negb mok || negb (is_nil auth))
   end.
